@@ -27,6 +27,11 @@ type c15DeadTongue struct {
 	peers   []*WebRTCPeer
 	catches int64
 	lastAt  int64 // unix nanos of the last Catch
+	// gate: no peer is handed out before the harness has its stream (the data
+	// path dies with the first write to a peer; a stream can only be opened
+	// while the session is still alive - on a loaded machine the death used to
+	// win that race)
+	gate chan struct{}
 }
 
 func (t *c15DeadTongue) GetMax() int { return t.max }
@@ -34,6 +39,9 @@ func (t *c15DeadTongue) GetMax() int { return t.max }
 func (t *c15DeadTongue) Catch() (*WebRTCPeer, error) {
 	atomic.AddInt64(&t.catches, 1)
 	atomic.StoreInt64(&t.lastAt, time.Now().UnixNano())
+	if t.gate != nil {
+		<-t.gate
+	}
 	pc, err := webrtc.NewPeerConnection(webrtc.Configuration{})
 	if err != nil {
 		return nil, err
@@ -70,7 +78,10 @@ func TestVerifC15ConnDeadSession(t *testing.T) {
 			defer wg.Done()
 			name := fmt.Sprintf("deadsession/max=%d/close=%s", s.max, s.mode)
 			rec := map[string]interface{}{"case": name}
-			tongue := &c15DeadTongue{max: s.max}
+			tongue := &c15DeadTongue{max: s.max, gate: make(chan struct{})}
+			var gateOnce sync.Once
+			openGate := func() { gateOnce.Do(func() { close(tongue.gate) }) }
+			defer openGate()
 			snowflakes, err := NewPeers(tongue)
 			if err != nil {
 				res.Inconcl(name + ": NewPeers: " + err.Error())
@@ -95,11 +106,12 @@ func TestVerifC15ConnDeadSession(t *testing.T) {
 				return
 			}
 			conn := &SnowflakeConn{Stream: stream, sess: sess, pconn: pconn, snowflakes: snowflakes}
+			openGate()
 			res.Eval(1)
 			// the application side: write until the error surfaces (bounded by state: the
 			// session is closed once the packet connection has ended)
 			dead := false
-			for i := 0; i < 400 && !dead; i++ {
+			for i := 0; i < 1200 && !dead; i++ {
 				if _, err := conn.Write([]byte("application data")); err != nil {
 					dead = true
 					rec["write_error"] = err.Error()
@@ -114,7 +126,7 @@ func TestVerifC15ConnDeadSession(t *testing.T) {
 				time.Sleep(50 * time.Millisecond)
 			}
 			if !dead {
-				res.Inconcl(name + ": the data path did not die within 20 s")
+				res.Inconcl(name + ": the data path did not die within 60 s")
 				conn.Close()
 				return
 			}
